@@ -100,4 +100,5 @@ Inductive keycomp :=
 | KList (d : dest)                       (* a whole list of ParsedArguments *)
 | KFiltered (d : dest) (pred : bytes)    (* the list minus the words a predicate (named) rejects *)
 | KProfileOutput                         (* the absolute output path, for profile / coverage builds *)
-| KCwd.                                  (* the working directory *)
+| KCwd.                                  (* the working directory (pushed when the preprocessor-cache option
+                                            hash_working_directory is set, its documented default) *)
